@@ -9,12 +9,15 @@
    Property::setHelper of the executable model is the abstract `lset` and evaluateAll is the abstract `eval_all`; hence a coherent
    world stays coherent, an assignment changes no other property, and after ONE evaluateAll over bindings registered in dependency
    order every registered bound property equals its expression recomputed from scratch (C06_one_pass_consistent).
+   The state conditions of that theorem are established and kept by every history that creates properties, attaches plain observers,
+   binds fresh properties through the evaluator, assigns to inputs and calls evaluateAll (coq/PropGrowLazy.v:
+   C06_state_conditions_reachable, C06_reachable_one_pass).
    PARTIAL: mixed worlds (immediate and evaluator-driven bindings together, several evaluators, acting observers) are covered by the
    extracted checker PropCheck.check_c06_after_evalall on every evaluateAll of every generated history and by correspondence;
    bindings that were reset / replaced / destroyed leave the registry in destroy_binding (definition), which is what evaluateAll
    iterates, and own no subscription any more (C07_reset_disconnects, C10_no_orphan_subscription). *)
 From KDB Require Import Util PropDefs PropProofs.
-From KDB Require PropAbs PropAbsLazy PropCheck PropSim PropSimLazy.
+From KDB Require PropAbs PropAbsLazy PropCheck PropSim PropSimLazy PropGrowLazy.
 
 (* a notification reaching a node of an evaluator-driven binding only sets dirty flags *)
 Theorem C06_notification_only_marks :
@@ -92,6 +95,44 @@ Theorem C06_one_pass_consistent :
       PropCheck.den_node fn (values w') (b_root x) = Some z -> pr_value pr = z.
 Proof. exact PropSimLazy.lazy_evalall_consistent. Qed.
 Print Assumptions C06_one_pass_consistent.
+
+(* the state conditions hold in every world reached by a history of a growing network of evaluator-driven bindings (LSND: dirty
+   flags sound in the abstraction; LCOH follows from it and the link invariant: PropGrowLazy.LCOH_of_LSND) *)
+Theorem C06_state_conditions_reachable :
+  forall fn rtl ev, ev <> 0 -> forall f ops w,
+    PropSimLazy.LSC ev w -> PropGrowLazy.LSND fn w -> PropGrowLazy.lazy_run_ok fn rtl ev f w ops ->
+    PropSimLazy.LSC ev (fold_left (step fn rtl (S f)) ops w) /\ PropGrowLazy.LSND fn (fold_left (step fn rtl (S f)) ops w).
+Proof. exact PropGrowLazy.lazy_grow_coherent. Qed.
+Print Assumptions C06_state_conditions_reachable.
+
+(* end to end from the empty world *)
+Theorem C06_reachable_one_pass :
+  forall fn rtl ev, ev <> 0 -> forall f ops e st w',
+    PropGrowLazy.lazy_run_ok fn rtl ev f world0 ops ->
+    lookup (w_bevs (run fn rtl (S f) ops)) e = Some ev -> nth_error (w_evps (run fn rtl (S f) ops)) ev = Some st ->
+    NoDup (PropSimLazy.regs_of (run fn rtl (S f) ops) (ep_registry st)) ->
+    PropSimLazy.lchain (run fn rtl (S f) ops) (PropSimLazy.regs_of (run fn rtl (S f) ops) (ep_registry st)) ->
+    step1 fn rtl (S f) (run fn rtl (S f) ops) (BevEvalAll e) = (w', None) ->
+    forall q x pr z, In q (PropSimLazy.regs_of (run fn rtl (S f) ops) (ep_registry st)) -> PropSimLazy.lz_of w' q = Some x ->
+      lookup (w_props w') q = Some pr -> PropCheck.den_node fn (values w') (b_root x) = Some z -> pr_value pr = z.
+Proof. exact PropGrowLazy.lazy_reachable_one_pass. Qed.
+Print Assumptions C06_reachable_one_pass.
+
+(* non-vacuity of the premises: a chain of two evaluator-driven bindings created in dependency order is such a history, its
+   registration order is duplicate free and dependency ordered *)
+Example C06_premises_example :
+  let fn := fun (f : nat) (l : list Z) => Some (fold_right Z.add (Z.of_nat f) l) in
+  let ops := [PNew 0 1%Z; BevNew 0; PBind 1 (EOp1 1 (EProp 0)) (MEvaluator 0); PBind 2 (EOp1 2 (EProp 1)) (MEvaluator 0); PSet 0 10%Z WSet] in
+  let w := run fn true 8 ops in
+  PropGrowLazy.lazy_run_ok fn true 1 7 world0 ops /\ lookup (w_bevs w) 0 = Some 1 /\
+  (exists st, nth_error (w_evps w) 1 = Some st /\ PropSimLazy.regs_of w (ep_registry st) = [1; 2]) /\
+  PropSimLazy.lchain w [1; 2].
+Proof.
+  split; [vm_compute; repeat split; reflexivity|]. split; [vm_compute; reflexivity|]. split; [eexists; split; vm_compute; reflexivity|].
+  cbn [PropSimLazy.lchain]. split; [|split; [|exact I]].
+  - intros x lf p E Hi Ht. vm_compute in E. inversion E; subst x. cbn in Hi. destruct Hi as [<-|[]]. cbn in Ht. inversion Ht; subst p. intros [H|[H|[]]]; discriminate H.
+  - intros x lf p E Hi Ht. vm_compute in E. inversion E; subst x. cbn in Hi. destruct Hi as [<-|[]]. cbn in Ht. inversion Ht; subst p. intros [H|[]]; discriminate H.
+Qed.
 
 (* non-vacuity: a chain created in dependency order is consistent after ONE evaluateAll; before it nothing moves *)
 Example C06_example :
